@@ -24,12 +24,14 @@ BagOfSeq(q) == [o \in ToSet(q) |-> Cardinality({k \in DOMAIN q : q[k] = o})]
 Fresh(x) == /\ sess' = SessOf(x)
             /\ st' = [e \in Ends |-> InitSt] /\ chan' = [e \in Ends |-> <<>>]
             /\ killed' = [s \in Sessions |-> FALSE] /\ pooled' = EmptyBag /\ nf' = 0 /\ resets' = resets
+            /\ recorded' = {} /\ verified' = {} /\ cmode' = cmode
             /\ tampered' = [s \in Sessions |-> FALSE] /\ hist' = <<>>
 
 TraceInit == /\ l = 2 /\ drift = 0 /\ Trace[1].ev = "Config"
              /\ sess = SessOf(Trace[1])
              /\ st = [e \in Ends |-> InitSt] /\ chan = [e \in Ends |-> <<>>]
              /\ killed = [s \in Sessions |-> FALSE] /\ pooled = EmptyBag /\ nf = 0 /\ resets = AllFields
+             /\ recorded = {} /\ verified = {} /\ cmode = "none"
              /\ tampered = [s \in Sessions |-> FALSE] /\ hist = <<>>
 
 Is(e) == l <= Len(Trace) /\ Trace[l].ev = e
@@ -77,7 +79,8 @@ Resync ==
                          ELSE IF X.post.pc = "done" /\ st[E].pc # "done" THEN pooled (+) SetToBag({Rel(st[E].obj)})
                          ELSE pooled
     /\ drift' = drift + 1
-    /\ UNCHANGED <<sess, killed, nf, tampered, hist, resets>>
+    /\ recorded' = IF X.ev = "Write" /\ X.ok /\ X.f.t = "cred" THEN recorded \cup {X.f} ELSE recorded
+    /\ UNCHANGED <<sess, killed, nf, tampered, hist, resets, verified, cmode>>
 
 TraceNext == \/ Matching /\ l' = l + 1 /\ drift' = drift
              \/ Resync /\ l' = l + 1
